@@ -8,7 +8,7 @@ group("rdb", family="vec", shrinks={"MAX_LEVEL": 4, "SHARDS_PER_DATABASE": 1},
 
 # same, with the loader's read chunk (64 KiB) shrunk to 2 bytes so that short strings take the multi-chunk path
 group("rdbchunk", family="vec", shrinks={"MAX_LEVEL": 4, "SHARDS_PER_DATABASE": 1},
-      subst=[(r"\A", '#![recursion_limit = "512"]\n', "src/lib.rs"), (r"\.min\(\s*(?:64 \* 1024|65_?536|0x1_?0000)\s*\)", ".min(2)", "src/storage/rdb.rs")],
+      subst=[(r"\A", '#![recursion_limit = "512"]\n', "src/lib.rs"), (r"(?<![\w.])(?:64 \* 1024|65_?536|0x1_?0000)(?![\w.])", "2", "src/storage/rdb.rs")],
       overlays={"src/storage/rdb.rs": "ovl_rdb.rs", "src/storage/engine.rs": "ovl_rdb_engine.rs"})
 
 RDB_IO = ["RdbWriter<W>/RdbReader<R> instantiated with W = fixed-capacity in-memory buffer, R = &[u8] (the code is generic over Write/Read)"]
@@ -30,7 +30,7 @@ K("c09_strcodec_0to3", "rdb", ["C09"], tier="quick", timeout=600,
 K("c09_strcodec_chunked", "rdbchunk", ["C09", "C10"], tier="quick", timeout=900,
   desc="read_string(write_string(p)) == p when the string spans SEVERAL read chunks: the loader's chunk size (64 KiB in the source) is shrunk to 2 bytes in the scratch copy, payloads of 2, 3 and 5 arbitrary bytes (one full chunk; full + short last chunk; two full + short): the path every string longer than 64 KiB takes",
   encodes=["RdbWriter::write_string", "RdbReader::read_string", "RdbReader::read_length"],
-  bounds="chunk size 2 (textual substitution of `remaining.min(64 * 1024)`), payload lengths concrete {2,3,5}, bytes symbolic; unwind 10", stubs=FMT + RX, assumptions=RDB_IO, native_replay=False)
+  bounds="chunk size 2 (textual substitution of the literal 64 * 1024 / 65536 in rdb.rs, wherever it is written: inline or in a named const), payload lengths concrete {2,3,5}, bytes symbolic; unwind 10", stubs=FMT + RX, assumptions=RDB_IO, native_replay=False)
 
 # NOTE: every *_kf harness is tier "thorough" until its finding id is listed in known_findings.json (or the code is
 # fixed); they take 20-80 s each and belong into the quick tier afterwards.
